@@ -33,6 +33,14 @@ def table_snapshot():
     out["functional_groups"] = dict(reactor.functional_groups)
     out["lists"] = {n: list(getattr(reactor, n)) for n in ("preserve_elem", "n_conflict", "o_conflict", "p_conflict", "c_conflict")}
     out["ketoses2"] = sorted(str(x) for x in utils.ketoses2)
+    # interpreter-wide settings a library call has no business changing (the root logger's level and handlers are not among
+    # them: verbose=<level> asks for logging.basicConfig(level=...))
+    import warnings
+    root = logging.getLogger()
+    out["interpreter"] = {"recursionlimit": sys.getrecursionlimit(), "cwd": os.getcwd(), "environ": sorted(os.environ.items()),
+                          "logging_disable_level": logging.root.manager.disable, "warnings_filters": len(warnings.filters),
+                          "sys_path": list(sys.path), "switchinterval": sys.getswitchinterval(),
+                          "int_max_str_digits": sys.get_int_max_str_digits() if hasattr(sys, "get_int_max_str_digits") else None}
     return out
 
 
